@@ -18,4 +18,7 @@ def util_ulen (truth : Term → Bool) (wcwidth_wcswidth_string : Int) : Out :=
 /-- the decorators of dataiter/util.py: ulen, outermost first -/
 def util_ulen_decorators : List String := []
 
+/-- the signature of dataiter/util.py: ulen: parameters in order, with the source text of their defaults -/
+def util_ulen_signature : List String := ["string"]
+
 end DI.Gen
